@@ -235,10 +235,11 @@ pub const PH_SWEEP: u64 = 11;   // closing helper: sync sweep
 pub const PH_PROBE: u64 = 12;   // closing helper: try_sync probe
 pub const PH_DESPAWN: u64 = 13;
 pub const PH_FIREWAIT: u64 = 14; // firer waiting for an op to return/start
+pub const PH_ATTEMPT: u64 = 15;  // scheduling attempt on a panicked object
 
 pub fn phase_name(p: u64) -> &'static str {
     match p { 1 => "call", 2 => "await", 3 => "future.sync()", 4 => "drop_future", 5 => "drop_object", 6 => "resume", 7 => "consume", 8 => "pipe_create",
-              9 => "drop_stream", 10 => "hold", 11 => "closing_sync", 12 => "closing_try_sync", 13 => "despawn", 14 => "firer_wait", _ => "?" }
+              9 => "drop_stream", 10 => "hold", 11 => "closing_sync", 12 => "closing_try_sync", 13 => "despawn", 14 => "firer_wait", 15 => "attempt_on_panicked_object", _ => "?" }
 }
 
 pub struct PipeState {
@@ -275,6 +276,8 @@ pub struct RunCtx {
     pub pusher:     OnceLock<Thread>,
     pub blocking:   Vec<AtomicU64>,
     pub threads_done: AtomicUsize,
+    /// bit t set: caller thread t of phase 0 has finished
+    pub done_mask:  AtomicU64,
     pub mortal_job_owner: Mutex<Option<Arc<Obj>>>,
     pub resumers:   Vec<Mutex<Option<desync::scheduler::QueueResumer>>>,
     /// stamp taken just before the resumer was used/dropped, per op
@@ -283,6 +286,11 @@ pub struct RunCtx {
     pub wake_classes: Vec<AtomicU32>,
     pub native:     bool,
     pub expected_panic_seen: AtomicU32,
+    /// (C15) attempts made on panicked objects: (kind, object, failed loudly)
+    pub attempts:   Mutex<Vec<(u8, usize, bool)>>,
+    pub stash:      Mutex<std::collections::HashMap<OpId, Held>>,
+    pub waiters:    Mutex<Vec<Thread>>,
+    pub has_waiters: AtomicBool,
 }
 
 pub const WAKE_STATES: [&str; 9] = ["Idle", "Pending", "Running", "WaitingForWake", "WaitingForUnpark", "WaitingForPoll", "AwokenWhileRunning", "Panicked", "?"];
@@ -308,7 +316,11 @@ impl RunCtx {
 
     pub fn progress(&self) { self.main.unpark(); }
 
-    pub fn note_for_firer(&self) { if let Some(f) = self.firer.get() { f.unpark(); } if let Some(f) = self.pusher.get() { f.unpark(); } }
+    pub fn note_for_firer(&self) {
+        if let Some(f) = self.firer.get() { f.unpark(); }
+        if let Some(f) = self.pusher.get() { f.unpark(); }
+        if self.has_waiters.load(Ordering::SeqCst) { for t in self.waiters.lock().unwrap().iter() { t.unpark(); } }
+    }
 }
 
 // ---------------------------------------------------------------------------------------------
@@ -342,6 +354,7 @@ impl Span {
                 format!("op {} ({}) entered object {} while op {} ({}) was still inside (occupancy {}); runner ctx {}", op, def.kind.name(), def.obj, other, ok, before, ctx_code()));
         }
         st.inside.store(op + 1, ORD);
+        if ctx.has_waiters.load(Ordering::Relaxed) || ctx.prog.fire.iter().any(|a| matches!(a, FAct::WaitStart(_))) { ctx.note_for_firer(); }
         Span { ctx: Arc::clone(ctx), op, done: false }
     }
 
@@ -356,6 +369,9 @@ impl Drop for Span {
         if !self.done {
             if thread::panicking() {
                 rec.outcome.store(5, ORD);
+                // where the panic happened (a future may have been started elsewhere)
+                rec.runner.store(ctx_code(), ORD);
+                rec.run_tid.store(tid_hash(), ORD);
             } else {
                 // the future was dropped before completion: the operation is still "executing" until this drop is over
                 rec.cancelled.store(true, ORD);
@@ -458,6 +474,7 @@ fn check_value(ctx: &RunCtx, op: OpId, got: Result<u64, Canceled>, what: &str) {
             rec.outcome.store(6, ORD);
             ctx.report(prop, "wrong_value", format!("wrong_value:{}:{}", def.kind.name(), what), format!("{} of op {} ({}) produced {:#x}, expected its own token {:#x}", what, op, def.kind.name(), v, ctx.token(op)));
         }
+        Err(_) if ctx.prog.panics && crate::oracle::object_panicked(ctx, def.obj) => { if rec.outcome.load(ORD) != 5 { rec.outcome.store(4, ORD); } }
         Err(_) => {
             rec.outcome.store(4, ORD);
             ctx.report(prop, "resolved_to_canceled", format!("canceled:{}:{}", def.kind.name(), what), format!("{} of op {} ({}) resolved to Err(Canceled) although nothing cancelled it", what, op, def.kind.name()));
@@ -638,7 +655,7 @@ fn sync_wait(ctx: &Arc<RunCtx>, op: OpId, d: &Obj) {
 // ---------------------------------------------------------------------------------------------
 // Caller threads
 
-struct Held { fut: Option<ResFut<'static>>, _keep: Arc<Obj> }
+pub struct Held { fut: Option<ResFut<'static>>, _keep: Arc<Obj> }
 
 pub struct ThreadLocalState {
     held:       std::collections::HashMap<OpId, Held>,
@@ -650,9 +667,8 @@ fn obj_for(ctx: &RunCtx, tls: &ThreadLocalState, obj: usize) -> Option<Arc<Obj>>
     if ctx.prog.mortal == Some(obj) { tls.mortal.clone() } else { ctx.obj(obj) }
 }
 
-pub fn run_thread(ctx: &Arc<RunCtx>, t: usize, mortal: Option<Arc<Obj>>) {
+pub fn run_thread(ctx: &Arc<RunCtx>, acts: Vec<TAct>, mortal: Option<Arc<Obj>>) {
     let mut tls = ThreadLocalState { held: Default::default(), mortal, streams: Default::default() };
-    let acts = ctx.prog.threads[t].clone();
     for act in acts {
         if ctx.sink.has_viol.load(Ordering::Relaxed) && false { break; }
         match act {
@@ -694,6 +710,23 @@ pub fn run_thread(ctx: &Arc<RunCtx>, t: usize, mortal: Option<Arc<Obj>>) {
             TAct::Consume(p, n) => crate::pipes::consume(ctx, &mut tls, p, n),
             TAct::DropStream(p) => { crate::pipes::drop_stream(ctx, &mut tls, p); ctx.note_for_firer(); }
             TAct::Push(p) => crate::pipes::push_item(ctx, p),
+            TAct::Attempt(kind, obj) => attempt(ctx, kind, obj),
+            TAct::WaitStart(op) => {
+                ctx.waiters.lock().unwrap().push(thread::current());
+                ctx.has_waiters.store(true, Ordering::SeqCst);
+                let _b = ctx.blocked(op, PH_FIREWAIT);
+                while ctx.recs[op].start.load(ORD) == 0 { thread::park(); }
+            }
+            TAct::Stash(op) => { if let Some(h) = tls.held.remove(&op) { ctx.stash.lock().unwrap().insert(op, h); } }
+            TAct::AttemptJoin(op) => {
+                let stashed = ctx.stash.lock().unwrap().remove(&op);
+                if let Some(mut h) = stashed.or_else(|| tls.held.remove(&op)) {
+                    let fut = h.fut.take().unwrap();
+                    let obj = ctx.prog.ops[op].obj;
+                    let r = std::panic::catch_unwind(std::panic::AssertUnwindSafe(|| { let _b = ctx.blocked(op, PH_ATTEMPT); let mut fut = fut; block_on_with(fut.as_mut(), |_| {}) }));
+                    attempt_result(ctx, 6, obj, r.is_err(), false);
+                }
+            }
         }
     }
     // anything still held is dropped now (futures first)
@@ -705,6 +738,48 @@ pub fn run_thread(ctx: &Arc<RunCtx>, t: usize, mortal: Option<Arc<Obj>>) {
     let leftover: Vec<usize> = tls.streams.keys().cloned().collect();
     for p in leftover { crate::pipes::drop_stream(ctx, &mut tls, p); }
     if let Some(owner) = tls.mortal.take() { drop_owner(ctx, NO_OP, owner); }
+}
+
+/// (C15) A scheduling attempt on a panicked object: anything but a panic is a violation
+fn attempt(ctx: &Arc<RunCtx>, kind: u8, obj: usize) {
+    use std::panic::{catch_unwind, AssertUnwindSafe};
+    let d = match ctx.obj(obj) { Some(d) => d, None => return };
+    let ran = Arc::new(AtomicBool::new(false));
+    let r2 = Arc::clone(&ran);
+    let r = catch_unwind(AssertUnwindSafe(|| {
+        let _b = ctx.blocked(NO_OP, PH_ATTEMPT);
+        match kind {
+            0 => d.desync(move |_| { r2.store(true, Ordering::SeqCst); }),
+            1 => d.sync(|_| { r2.store(true, Ordering::SeqCst); }),
+            2 => { let _ = d.try_sync(|_| { r2.store(true, Ordering::SeqCst); }); }
+            3 => { d.future_desync(move |_| async move { r2.store(true, Ordering::SeqCst); }.boxed()).detach(); }
+            4 => { let f = d.after(futures::future::ready(()), move |_, _| { r2.store(true, Ordering::SeqCst); }); std::mem::drop(f); }
+            _ => { let f = d.future_sync(move |_| async move { r2.store(true, Ordering::SeqCst); }.boxed()); let mut f = Box::pin(f); let _ = block_on_with(f.as_mut(), |_| {}); }
+        }
+    }));
+    attempt_result(ctx, kind, obj, r.is_err(), ran.load(Ordering::SeqCst));
+}
+
+fn attempt_result(ctx: &RunCtx, kind: u8, obj: usize, failed_loudly: bool, ran: bool) {
+    const NAMES: [&str; 7] = ["desync", "sync", "try_sync", "future_desync", "after", "future_sync", "await_of_earlier_future"];
+    ctx.attempts.lock().unwrap().push((kind, obj, failed_loudly));
+    if !failed_loudly || ran {
+        let how = panic_context(ctx, obj);
+        ctx.report("C15", "scheduling_on_panicked_object_did_not_fail_loudly", format!("quiet_attempt:{}:{}", NAMES[kind as usize], how),
+            format!("object {} has panicked ({}); a later {} on it {} instead of panicking", obj, how, NAMES[kind as usize], if ran { "ran its closure" } else { "returned normally" }));
+    }
+}
+
+/// Where the panicking body of an object ran: kind of the op and thread class
+pub fn panic_context(ctx: &RunCtx, obj: usize) -> String {
+    for (i, d) in ctx.prog.ops.iter().enumerate() {
+        if d.obj == obj && ctx.recs[i].outcome.load(ORD) == 5 {
+            let r = &ctx.recs[i];
+            let cls = match r.runner.load(ORD) { 1 => "pool_thread", 2 => if r.run_tid.load(ORD) == r.call_tid.load(ORD) { "calling_thread" } else { "other_caller_thread" }, _ => "other" };
+            return format!("{}_panicked_on_{}", d.kind.name(), cls);
+        }
+    }
+    "no_panic_recorded".into()
 }
 
 fn do_suspend(ctx: &Arc<RunCtx>, op: OpId, d: &Obj) {
@@ -865,12 +940,12 @@ pub fn build(prog: Program, native: bool) -> Handles {
         objs, weak, gates, holds, pipes, sink,
         main: thread::current(), firer: OnceLock::new(), pusher: OnceLock::new(),
         blocking: (0..48).map(|_| AtomicU64::new(0)).collect(),
-        threads_done: AtomicUsize::new(0),
+        threads_done: AtomicUsize::new(0), done_mask: AtomicU64::new(0),
         mortal_job_owner: Mutex::new(None),
         resumers: (0..n).map(|_| Mutex::new(None)).collect(),
         resume_stamp: (0..n).map(|_| AtomicU64::new(0)).collect(),
         wake_classes: (0..9 * 6).map(|_| AtomicU32::new(0)).collect(),
-        native, expected_panic_seen: AtomicU32::new(0),
+        native, expected_panic_seen: AtomicU32::new(0), attempts: Mutex::new(vec![]), stash: Mutex::new(Default::default()), waiters: Mutex::new(vec![]), has_waiters: AtomicBool::new(false),
         prog,
     });
     Handles { ctx, objects }
